@@ -245,6 +245,10 @@ func replayBatchFromChan(clck clock.Clock, batches <-chan edge.BufferedBatchMess
 				points[i].SetTime(points[i].Time().Add(diff).UTC())
 			}
 			lastTime = points[len(points)-1].Time()
+			// The time of the batch moves with its points.
+			if t := b.Begin().Time(); !t.IsZero() {
+				b.Begin().SetTime(t.Add(diff).UTC())
+			}
 		} else {
 			lastTime = points[len(points)-1].Time().Add(diff).UTC()
 		}
